@@ -823,6 +823,43 @@ def _where():
     return "?"
 
 
+def _portfolio_unsat(smt2, tlimit_s):
+    """True iff /usr/bin/z3 (4.8.12) or the cvc5 binary answers `unsat` on the query and neither
+    answers `sat` or reports an error."""
+    import subprocess
+    import tempfile
+
+    tlimit_s = max(5, int(tlimit_s))
+    fd, path = tempfile.mkstemp(suffix=".smt2", prefix="symx-portfolio-")
+    try:
+        with os.fdopen(fd, "w") as fh:
+            fh.write(smt2)
+        procs = []
+        for cmd in (["/usr/bin/z3", f"-T:{tlimit_s}", path], ["cvc5", "--lang=smt2", f"--tlimit={tlimit_s * 1000}", "--strings-exp", path]):
+            try:
+                procs.append(subprocess.Popen(cmd, stdout=subprocess.PIPE, stderr=subprocess.STDOUT, text=True))
+            except OSError:
+                pass
+        answers = []
+        for pr in procs:
+            try:
+                out, _ = pr.communicate(timeout=tlimit_s + 15)
+            except subprocess.TimeoutExpired:
+                pr.kill()
+                out = ""
+            lines = [l.strip() for l in (out or "").splitlines()]
+            if any(l.startswith("(error") for l in lines):
+                answers.append("error")
+            else:
+                answers.append(next((l for l in lines if l in ("sat", "unsat", "unknown")), "unknown"))
+        return "unsat" in answers and "sat" not in answers
+    finally:
+        try:
+            os.remove(path)
+        except OSError:
+            pass
+
+
 class SymCtx:
     mode = "sym"
 
@@ -882,6 +919,11 @@ class SymCtx:
             if r2 != z3.unknown:
                 r = r2
                 m = s2.model() if r2 == z3.sat else None
+            elif _portfolio_unsat(s2.to_smt2(), min(2 * self.query_timeout_ms, 120000) // 1000):
+                # other back ends (z3 4.8.12 and the cvc5 binary, as in the cross-solver re-check):
+                # only `unsat` is taken from them (no model to replay otherwise)
+                self.n_portfolio = getattr(self, "n_portfolio", 0) + 1
+                r = z3.unsat
         if extra:
             self.solver.pop()
         self.n_queries += 1
